@@ -144,6 +144,16 @@ def integrate(phi, xx, c):
     tkw = {}
     if 'initial_t' in c:
         tkw['initial_t'] = conv(at.get('initial_t'), c['initial_t'])
+    # 'func_names' (harness/props/c04_cross.py): ONLY these keywords are handed over as functions of time, v + slope*t with the slope of
+    # 'func_slopes' (default 0), every other argument stays the constant the case names -- one function is enough for the per-step loop
+    fnames = c.get('func_names') or []
+    fslopes = c.get('func_slopes') or {}
+    def only_funcs(kw):
+        for name in fnames:
+            if name not in kw:
+                raise ValueError('func_names: %r is not an argument of this call' % (name,))
+            if not callable(kw[name]):
+                kw[name] = (lambda t, v=kw[name], s=fslopes.get(name, 0.0): (v + s * t) if s else v)
     try:
         if d == 1:
             p = pops[0]
@@ -154,6 +164,7 @@ def integrate(phi, xx, c):
             elif p.get('frozen'):
                 kw['frozen'] = True
             kw.update(tkw)
+            only_funcs(kw)
             res = Integration.one_pop(phi, xx, T, **kw)
         else:
             kw = {}
@@ -176,6 +187,7 @@ def integrate(phi, xx, c):
                     kw['m' + names[i] + names[j]] = par(m, cls='m') if m != 0 else (0 if at.get('m') is None else conv(at.get('m'), m))
             kw['theta0'] = par(c['theta0'], c.get('theta_slope', 0.0), 'theta0')
             kw.update(tkw)
+            only_funcs(kw)
             f = [None, None, Integration.two_pops, Integration.three_pops, Integration.four_pops, Integration.five_pops][d]
             res = f(phi, xx, T, **kw)
     finally:
